@@ -740,3 +740,51 @@ def rule_R_STATELESS(ctx, repo):
                      'raises part-way and the clean-up is skipped - changes how later arguments are rounded, so the same call gets different keys at different times '
                      '(and another key than the session that archived its result)' % (fname, nm, level[nm], g.name), '%s:%d' % (m.rel, y.lineno))
     ctx.ob('R-PURE', 'rounder factories examined for state kept between calls', True, n=n)
+
+
+def rule_R_NOORDER(ctx, repo):
+    """R-SAFE (rounding asks nothing of the arguments but what it needs).  The rounders look at floats and walk containers.  Ordering user data -
+    `sorted(d)`, `.sort()`, `min` / `max` over keys or elements - compares arbitrary objects with `<`: a dict with keys of mixed types ({1: .., 'a': .., None: ..})
+    or unorderable elements makes a valid call fail inside the rounder (and in klepto.safe silently switches caching off for it)."""
+    m, closures = factory_closures(repo)
+    n = 0
+    seen = set()
+    for fi, node, env, eng, is_main in closures:
+        if id(node) in seen:
+            continue
+        seen.add(id(node))
+        n += 1
+        params = set(a.arg for a in node.args.posonlyargs + node.args.args + node.args.kwonlyargs)
+        if node.args.vararg:
+            params.add(node.args.vararg.arg)
+        if node.args.kwarg:
+            params.add(node.args.kwarg.arg)
+        # everything bound from the parameters is user data
+        data = set(params)
+        for _r in range(3):
+            for x in ast.walk(node):
+                if isinstance(x, ast.Assign) and any(isinstance(y, ast.Name) and y.id in data for y in ast.walk(x.value)):
+                    for t in x.targets:
+                        for e in ast.walk(t):
+                            if isinstance(e, ast.Name):
+                                data.add(e.id)
+                if isinstance(x, (ast.For, ast.comprehension)) and any(isinstance(y, ast.Name) and y.id in data for y in ast.walk(x.iter)):
+                    for e in ast.walk(x.target):
+                        if isinstance(e, ast.Name):
+                            data.add(e.id)
+        bad = None
+        for x in ast.walk(node):
+            if isinstance(x, ast.Call):
+                nm = x.func.id if isinstance(x.func, ast.Name) else x.func.attr if isinstance(x.func, ast.Attribute) else ''
+                args_ = list(x.args) + ([x.func.value] if isinstance(x.func, ast.Attribute) and nm == 'sort' else [])
+                if nm in ('sorted', 'sort', 'min', 'max', 'nsmallest', 'nlargest', 'bisect') and any(isinstance(y, ast.Name) and y.id in data for a_ in args_ for y in ast.walk(a_)) \
+                        and not any(k.arg == 'key' for k in x.keywords):
+                    bad = x
+                    break
+        ctx.ob('R-SAFE', '%s.%s orders none of its arguments' % (fi.qual, node.name), bad is None)
+        if bad is not None:
+            ctx.fail('R-SAFE', '%s.%s' % (fi.qual, node.name), '%s over user data' % unparse(bad)[:30],
+                     '%s orders user data with `%s`: objects of different types (or without `<`) cannot be ordered, so a call with such a container raises TypeError inside the '
+                     'rounder although the function itself accepts it - in klepto.safe the call is then silently never cached' % (node.name, unparse(bad)[:40]),
+                     '%s:%d' % (m.rel, bad.lineno))
+    ctx.ob('R-SAFE', 'rounders examined for ordering of user data', True, n=n)
